@@ -1,0 +1,48 @@
+// Copyright 2020-2025 Buf Technologies, Inc.
+//
+// Licensed under the Apache License, Version 2.0 (the "License");
+// you may not use this file except in compliance with the License.
+// You may obtain a copy of the License at
+//
+//      http://www.apache.org/licenses/LICENSE-2.0
+//
+// Unless required by applicable law or agreed to in writing, software
+// distributed under the License is distributed on an "AS IS" BASIS,
+// WITHOUT WARRANTIES OR CONDITIONS OF ANY KIND, either express or implied.
+// See the License for the specific language governing permissions and
+// limitations under the License.
+//go:build verif
+
+package bufanalysis
+
+// Contracts for the gocv verifier (author ca-C2): construction of a FileAnnotationSet (C01, C20). Comment-only.
+//
+// newFileAnnotationSet: no annotations, no set (the callers turn "no set" into "no error", i.e. exit status 0); otherwise
+// the set holds the de-duplicated, sorted annotations (deduplicateAndSortFileAnnotations, verified for C02) and nothing else.
+//@ func newFileAnnotationSet(fileAnnotations) (r)
+//@   property C01 C20
+//@   ensures no-annotations-no-set: (r == nil) <==> len(fileAnnotations) == 0
+//@   ensures only-the-given-annotations: r != nil ==> (forall a int :: 0 <= a && a < len(r.fileAnnotations) ==> (exists i int :: 0 <= i && i < len(fileAnnotations) && fileAnnotations[i] == r.fileAnnotations[a]))
+//@   ensures deduplicated: r != nil ==> (forall a int, b int :: 0 <= a && a < b && b < len(r.fileAnnotations) ==> !annSameKey(r.fileAnnotations[a], r.fileAnnotations[b]))
+//@   ensures sorted: r != nil && (forall i int :: 0 <= i && i < len(fileAnnotations) ==> fileAnnotations[i] != nil) ==> (forall a int, b int :: 0 <= a && a < b && b < len(r.fileAnnotations) ==> annLess(r.fileAnnotations[a], r.fileAnnotations[b]))
+// (the antecedent is the one of deduplicateAndSortFileAnnotations#post[distinct-annotations-kept]: an annotation that names a
+// file names it by a non-empty external path)
+//@   ensures every-annotation-kept: r != nil && (forall i int :: 0 <= i && i < len(fileAnnotations) && fileAnnotations[i].FileInfo() != nil ==> fileAnnotations[i].FileInfo().ExternalPath() != "") ==> (forall i int :: 0 <= i && i < len(fileAnnotations) ==> (exists a int :: 0 <= a && a < len(r.fileAnnotations) && annSameKey(r.fileAnnotations[a], fileAnnotations[i])))
+//@   canary ensures r == nil
+//@   canary ensures r != nil
+//
+//@ func (f *fileAnnotationSet) FileAnnotations() (r)
+//@   property C01 C20
+//@   ensures r == f.fileAnnotations
+//
+// NewFileAnnotationSet: the exported constructor. (The documented "if len(fileAnnotations) is 0, this returns nil" is NOT
+// stated: the function converts the nil *fileAnnotationSet to the interface type, so the result compares != nil in Go,
+// while the engine identifies a nil pointer with a nil interface and would "prove" it. Reported as a finding by ca-C2.)
+//@ func NewFileAnnotationSet(fileAnnotations) (r)
+//@   property C01 C20
+//@   ensures annotations-give-a-set: len(fileAnnotations) > 0 ==> r != nil && typeOf(r) == typeId(*fileAnnotationSet)
+//@   ensures only-the-given-annotations: len(fileAnnotations) > 0 ==> (forall a int :: 0 <= a && a < len(cast(*fileAnnotationSet, r).fileAnnotations) ==> (exists i int :: 0 <= i && i < len(fileAnnotations) && fileAnnotations[i] == cast(*fileAnnotationSet, r).fileAnnotations[a]))
+//@   ensures deduplicated: len(fileAnnotations) > 0 ==> (forall a int, b int :: 0 <= a && a < b && b < len(cast(*fileAnnotationSet, r).fileAnnotations) ==> !annSameKey(cast(*fileAnnotationSet, r).fileAnnotations[a], cast(*fileAnnotationSet, r).fileAnnotations[b]))
+//@   ensures sorted: len(fileAnnotations) > 0 && (forall i int :: 0 <= i && i < len(fileAnnotations) ==> fileAnnotations[i] != nil) ==> (forall a int, b int :: 0 <= a && a < b && b < len(cast(*fileAnnotationSet, r).fileAnnotations) ==> annLess(cast(*fileAnnotationSet, r).fileAnnotations[a], cast(*fileAnnotationSet, r).fileAnnotations[b]))
+//@   ensures every-annotation-kept: len(fileAnnotations) > 0 && (forall i int :: 0 <= i && i < len(fileAnnotations) && fileAnnotations[i].FileInfo() != nil ==> fileAnnotations[i].FileInfo().ExternalPath() != "") ==> (forall i int :: 0 <= i && i < len(fileAnnotations) ==> (exists a int :: 0 <= a && a < len(cast(*fileAnnotationSet, r).fileAnnotations) && annSameKey(cast(*fileAnnotationSet, r).fileAnnotations[a], fileAnnotations[i])))
+//@   canary ensures len(fileAnnotations) > 0 ==> false
